@@ -12,6 +12,7 @@ import Flowjaxv.Driver.Params
 import Flowjaxv.Driver.ArgCheck
 import Flowjaxv.Driver.Families
 import Flowjaxv.Driver.Bisection
+import Flowjaxv.Driver.BisectionGen
 import Flowjaxv.Driver.Train
 import Flowjaxv.Driver.Vectorize
 import Flowjaxv.Driver.TraceDrv
@@ -96,6 +97,10 @@ def dispatch (line : String) : String :=
       | "adapt" => adapt args
       | "ar" => ar args
       | "archeck" => archeck args
+      | "gbis" => gbis args
+      | "gar" => gar args
+      | "ginv" => ginv args
+      | "garcheck" => garcheck args
       | "cfruit" => cfruit args
       | "fit" => fit args
       | "vi" => vi args
